@@ -84,7 +84,7 @@ def model_check(ctx, descs):
     import os as _os
     from vh import tlc as _tlc
     text = open(_os.path.join(_tlc.SPECS, "Dataflow", "Dataflow.tla")).read()
-    hits = _tlc.definition_hits(rc.stdout, "Dataflow", text, ["RoundStep", "Scatter", "GatherRecv", "DotRecv", "ExecRound", "JobDone",
+    hits = _tlc.definition_hits(rc.stdout, "Dataflow", text, ["RoundStep", "Scatter", "GatherRecv", "DotRecv", "ExecRound", "ExecPair", "JobDone",
                                                                "JobFail", "Emit", "XRecv", "ExecEnd", "Deploy", "SchedConn", "CloseAll"])
     r.coverage = {k: [v, v] for k, v in hits.items()}
     # temporal formulation (ExecutorEnds, EveryStepEnds under weak fairness) on the smaller networks; on all networks
@@ -113,7 +113,7 @@ def run_all(ctx, focus):
         which = r.trace[-1]["state"].get("net") if r.trace else None
         ctx.require(False, "Dataflow model violates %s %s on generated network %s (%s)" % (
             r.error, r.violated, which, descs[which - 1]["name"] if which else "?"))
-    ctx.require_coverage(r, ["RoundStep", "Scatter", "GatherRecv", "DotRecv", "ExecRound", "JobDone", "JobFail", "Emit", "XRecv", "ExecEnd",
+    ctx.require_coverage(r, ["RoundStep", "Scatter", "GatherRecv", "DotRecv", "ExecRound", "ExecPair", "JobDone", "JobFail", "Emit", "XRecv", "ExecEnd",
                              "Deploy", "SchedConn"])
     ctx.extra["action_evaluations"] = {k: v[1] for k, v in r.coverage.items()}
     # permissive interleaving (no priority of pure continuations), safety only, on the small networks (thorough)
